@@ -1,4 +1,4 @@
-CONSTANTS MaxCalls = 3
+CONSTANTS MaxCalls = 4
 INIT Init
 NEXT Next
 INVARIANT Inv
